@@ -24,12 +24,12 @@ JOBS = [
       fuc=["myth_join_counter_wait_body"], timeout=180, read_hooks=[("state", "myth_verif_rd")]),
   Job("c07.lemmas", TU, "h_lemmas", fuc=[], timeout=120),
   Job("c07.wake_many.bounded", TU, "h_wake_many", kind="bounded",
-      replace_calls=["myth_sleep_queue_deq:verif_deq", "myth_queue_push:verif_push"],
+      replace_calls=["myth_sleep_queue_deq:verif_deq", "myth_queue_push:verif_push", "myth_yield_body:verif_yield_wm"],
       cbmc=["--unwind", "8", "--unwinding-assertions"], defines=["-DWM_N=4", "-DWM_K=2"],
       fuc=["myth_wake_many_from_queue"], timeout=300, tiers=("quick",),
       note="bounded: n <= 4 sleepers, at most 2 empty polls of the sleep queue (late sleepers)"),
   Job("c07.wake_many.n12.bounded", TU, "h_wake_many", kind="bounded",
-      replace_calls=["myth_sleep_queue_deq:verif_deq", "myth_queue_push:verif_push"],
+      replace_calls=["myth_sleep_queue_deq:verif_deq", "myth_queue_push:verif_push", "myth_yield_body:verif_yield_wm"],
       cbmc=["--unwind", "20", "--unwinding-assertions"], defines=["-DWM_N=12", "-DWM_K=4"],
       fuc=["myth_wake_many_from_queue"], timeout=1800, mem_gb=12, tiers=("thorough",),
       note="bounded: n <= 12 sleepers, at most 4 empty polls of the sleep queue (late sleepers)"),
